@@ -22,7 +22,8 @@ class NodeVisitor(object):
                 self.visit(value)
 
     def visit_Constant(self, node):
-        if node.value in [None, True, False]:
+        if node.value is None or node.value is True or node.value is False:
+            # Compare by identity: the numbers 0, 1, 0.0 and 1.0 are equal to False and True
             method = 'visit_NameConstant'
         elif isinstance(node.value, (int, float, complex)):
             method = 'visit_Num'
